@@ -239,8 +239,9 @@ def rOpen1Body (o : Outcome) (h : Handle) : Handle × Rc :=
     -- the client's stream is now the library's to close
     let h := { h with client := true, nOpen := h.nOpen + 1, lost := h.lost + b2n h.client }
     match o.alt with
-    | 1 => -- the open callback failed: `read_client_close_proxy(a); return (e);`
-      (callCloser h, o.rc)
+    | 1 => -- the open callback failed: `read_client_close_proxy(a);`, the callbacks and their
+      -- data are forgotten, `return (e);` — the handle is still new
+      (callCloser { h with hasReader := false }, o.rc)
     | 2 => -- choose_filters failed: `__archive_read_free_filters(a)`, FATAL
       ({ rFreeFilters (rSetFilters h o.n) with st := .fatal }, .fatal)
     | 3 => -- choose_format failed: `close_filters(a)`, FATAL
